@@ -219,13 +219,12 @@ Definition ta_array_new (a : tarrs) (esz : N) (data : list word) : option (tarrs
 
 (* ---- rustgen.rs GetArrayElem / SetArrayElem:
      let len = if array.elem_size_words == 0 { 0 } else { array.data.len() / array.elem_size_words };
-     let index = if len == 0 { 0 } else if !index_value.is_finite() { 0 }
-                 else { (index_value as i64).clamp(0, (len - 1) as i64) as usize };                      ---- *)
+     let index = if len == 0 { 0 } else { (index_value as i64).clamp(0, (len - 1) as i64) as usize };
+   (`as i64` saturates: +inf -> i64::MAX, -inf -> i64::MIN, NaN -> 0; the VM's conversion, since the repair of C18/R1) ---- *)
 Definition ta_len_elems (ar : tarr) : N := if ta_esz ar =? 0 then 0 else nlen (ta_data ar) / ta_esz ar.
 
 Definition ta_index (idx : word) (len : N) : N :=
   if len =? 0 then 0
-  else if negb (f64_is_finite idx) then 0
   else Z.to_N (clampZ (f64_to_i64 idx) 0 (Z.of_N (len - 1))).
 
 (* GetArrayElem(arr, idx, elem_ty): elem_words is the STATIC element size of the instruction, the length uses the
@@ -261,14 +260,15 @@ Definition ta_array_set (a : tarrs) (handle idx : word) (src : list word) (elem_
 (* ---- call_ext: the array builtins.  [ew] is parse_specialized_arity(name, "<builtin>$arity", 1): None when the suffix
    does not parse ("invalid .. specialization") ---- *)
 
-(* "len": the zero handle has length 0; otherwise array.data.len() as f64 — the number of WORDS *)
+(* "len": the zero handle has length 0; otherwise the number of ELEMENTS (since the repair of C18/R2):
+   if array.elem_size_words == 0 { 0 } else { array.data.len() / array.elem_size_words } as f64 *)
 Definition bi_len (a : tarrs) (args : list word) : tres (list word) :=
   match args with
   | [] => TErr EArgs
   | handle :: _ =>
       if handle =? 0 then TOk [0]
       else match ta_get a handle with
-           | TOk ar => TOk [f64_of_N (nlen (ta_data ar))]
+           | TOk ar => TOk [f64_of_N (ta_len_elems ar)]
            | TErr e => TErr e
            | TPanic => TPanic
            end
